@@ -29,8 +29,33 @@ fn expected(letters: &[u8], text: &[u8]) -> Result<Vec<u8>, char> {
     Ok(out)
 }
 
+thread_local! {
+    /// The alphabet this process encoded BEFORE the one being checked (None: the first one): encoders that cache
+    /// per-alphabet tables in process-wide state can depend on it, so it is part of every recorded case.
+    static EARLIER: std::cell::Cell<Option<&'static str>> = const { std::cell::Cell::new(None) };
+}
+
 fn case_json(alpha: &str, cfg: &str, text: &[u8]) -> Value {
-    json!({"alphabet": alpha, "cfg": cfg, "text_bytes": text, "text_lossy": String::from_utf8_lossy(text)})
+    json!({"alphabet": alpha, "cfg": cfg, "text_bytes": text, "text_lossy": String::from_utf8_lossy(text),
+           "alphabet_used_earlier_in_this_process": EARLIER.with(|x| x.get())})
+}
+
+/// Encode one valid text of `alpha` through every entry point (what a process that used this alphabet before has done).
+fn warm_up(alpha: &str) {
+    fn go<A: Alphabet>() {
+        let text: Vec<u8> = letters::<A>().to_vec();
+        for cfg in cfgs::ALL_ECFGS {
+            let _ = catch(|| cfgs::encode_all::<A>(cfg, &text));
+        }
+        for arm in cfgs::FORCED {
+            let _ = catch(|| cfgs::with_arm(arm, || EncodedSequence::<A>::encode(&text).is_ok()));
+        }
+    }
+    if alpha == "dna" {
+        go::<Dna>()
+    } else {
+        go::<Protein>()
+    }
 }
 
 /// Check one (cfg, text); returns a description of the first discrepancy.
@@ -369,9 +394,23 @@ fn run_alpha<A: Alphabet>(alpha: &'static str, ctx: &mut Ctx, rep: &mut Report, 
 }
 
 pub fn run(ctx: &mut Ctx, rep: &mut Report) {
-    let mut base = 0u64;
-    run_alpha::<Dna>("dna", ctx, rep, &mut base);
-    run_alpha::<Protein>("protein", ctx, rep, &mut base);
+    // each alphabet has its own index range, so that the partition into shards does not depend on the order; even
+    // shards encode DNA first and protein second, odd shards the other way round (process-wide state shared between
+    // the alphabets - lookup tables built on first use - is exercised in both orders)
+    let mut base_dna = 0u64;
+    let mut base_prot = 1u64 << 40;
+    if ctx.shard % 2 == 0 {
+        EARLIER.with(|x| x.set(None));
+        run_alpha::<Dna>("dna", ctx, rep, &mut base_dna);
+        EARLIER.with(|x| x.set(Some("dna")));
+        run_alpha::<Protein>("protein", ctx, rep, &mut base_prot);
+    } else {
+        EARLIER.with(|x| x.set(None));
+        run_alpha::<Protein>("protein", ctx, rep, &mut base_prot);
+        EARLIER.with(|x| x.set(Some("protein")));
+        run_alpha::<Dna>("dna", ctx, rep, &mut base_dna);
+    }
+    rep.note("even shards encode DNA before protein, odd shards protein before DNA; every recorded case names the alphabet used earlier in its process and the replay encodes a text of that alphabet first");
     let _ = model::DNA_LETTERS;
 }
 
@@ -380,6 +419,9 @@ pub fn replay(_ctx: &mut Ctx, rep: &mut Report, case: &Value) {
     let alpha = case["alphabet"].as_str().unwrap();
     let text: Vec<u8> = case["text_bytes"].as_array().unwrap().iter().map(|x| x.as_u64().unwrap() as u8).collect();
     let cfgname = case["cfg"].as_str().unwrap();
+    if let Some(earlier) = case["alphabet_used_earlier_in_this_process"].as_str() {
+        warm_up(earlier);
+    }
     fn go<A: Alphabet>(alpha: &str, cfgname: &str, text: &[u8], rep: &mut Report) {
         for cfg in cfgs::ALL_ECFGS {
             if cfgname == "all" || cfgname == cfg.name() {
